@@ -1,13 +1,13 @@
 CONSTANTS
   Ctxs = {1, 2, 3}
   Names = {"x", "y"}
-  Boxes = {2, 3}
+  Boxes = {1, 2}
   Vals = {0, 1}
   MaxStack = 2
   MaxOps = 5
-  OpKinds = {"set", "get", "del", "iter", "release", "push", "pop", "top", "release_stack", "cleanup", "mkproxy", "proxy_read", "proxy_mutate", "proxy_pop", "proxy_clear", "spawn"}
+  OpKinds = {"set", "get", "del", "iter", "release", "push", "pop", "top", "release_stack", "cleanup", "mkproxy", "proxy_read", "proxy_mutate", "spawn"}
   Made0 <- NoneMade
-  Bug = "none"
+  Bug = "falsy_unbound"
 INIT Init
 NEXT Next
 INVARIANT ViewEqualsIdeal
